@@ -103,6 +103,7 @@ type Obligation struct {
 	Prefix int    // number of body lines (fx.lines) visible to this obligation
 	Clause *Clause
 	AltGrp string
+	PathsLast []string // the edge conditions of the most recent join only (cover the reach condition by construction)
 	Paths  []string // when set: the goal is proved once under each of these hypotheses (they cover the reach condition)
 }
 
@@ -300,6 +301,15 @@ func (fx *FuncCtx) oblige(st *State, kind, label, goal string, pos token.Pos, st
 		ob.Name = fnDisplay(fx.fn) + "#" + label
 		if kind == "inv-keep" || kind == "post" || kind == "step" || kind == "hint" {
 			ob.Paths = pathHypotheses(st.Splits, 8)
+			// the alternatives of the last join alone always cover the reach condition
+			for i := len(st.Splits) - 1; i >= 0; i-- {
+				if len(st.Splits[i]) >= 2 {
+					if i == len(st.Splits)-1 {
+						ob.PathsLast = append([]string(nil), st.Splits[i]...)
+					}
+					break
+				}
+			}
 		}
 		fx.obls = append(fx.obls, ob)
 	}
